@@ -42,7 +42,9 @@ def _lang_tables(ctx, rule):
     return out
 
 
-def table_rules(ctx, rule_a, rule_b, rule_c, rule_d, rule_g):
+def table_rules(ctx, rule_a, rule_b, rule_c, rule_d, rule_g, rule_m="same-as-d"):
+    if rule_m == "same-as-d":
+        rule_m = rule_d
     langs = _lang_tables(ctx, rule_a)
     real = [(lc, d) for lc, d in langs if d["compose"] or d["reduce"]]
     ctx.floor(rule_a, "languages_with_tables", len(real), 5)
@@ -92,6 +94,18 @@ def table_rules(ctx, rule_a, rule_b, rule_c, rule_d, rule_g):
                                  "%s: %r reduces to %r but its other-case form %r %s (normalisation runs before lower-casing)"
                                  % (lname, frm, to, other, "reduces to %r" % red[other] if other in red else "is not reduced"),
                                  {"table": tbl, "witness": "the same word typed in the other case is not found"})
+            # keys and targets are letters / marks: normalisation runs before the split, so an entry that rewrites a
+            # separator or a digit into letters changes which queries have words at all
+            bad_k = [c for c in frm if ud.category(c)[0] not in ("L", "M")]
+            bad_t = [c for c in to if ud.category(c)[0] not in ("L", "M")]
+            key = "letters-only:%s:%s" % (lname, k)
+            if bad_k or bad_t:
+                ctx.fail(rule_m, key, lc.body.where(), "%s: reduction entry %r -> %r involves %r, which is no letter or combining mark "
+                         "(category %s): a separator-only query becomes a word / a word falls apart" %
+                         (lname, frm, to, (bad_k or bad_t)[0], ud.category((bad_k or bad_t)[0])),
+                         {"table": tbl, "witness": "Spanish store, query '&': treated as the word 'y' instead of an empty query"})
+            else:
+                ctx.ok(rule_m, key, lc.body.where(), "%s: %r -> %r are letters / marks" % (lname, frm, to))
             # R11.d fixpoint
             key = "fixpoint:%s:%s" % (lname, k)
             again = [c for c in to if c in red]
